@@ -322,6 +322,12 @@ def r15_7(ctx: Ctx) -> None:
                                                                                       and t.attr in poison for t in n.targets)]
                 looks = any(isinstance(x, ast.Attribute) and x.attr in ("consumed", "_unpacksizes", "unpacksizes", "packsize") for s_ in sets for x in ast.walk(s_.value)) or \
                     any(isinstance(x, ast.Attribute) and x.attr in ("consumed", "_unpacksizes", "unpacksizes", "packsize") for x in ast.walk(h) if sets)
+                # ... and the field is set (stays set) whenever the compressor's count differs from the one taken before the call: `old or now != before`;
+                # `old and ...`, `now == before` do not do
+                def differs(e: ast.AST) -> bool:
+                    return isinstance(e, ast.Compare) and len(e.ops) == 1 and isinstance(e.ops[0], ast.NotEq) and any(
+                        isinstance(x, ast.Attribute) and x.attr in ("consumed", "_unpacksizes", "unpacksizes", "packsize") for x in ast.walk(e))
+                looks = looks and all(shared.on_when(f, s_.value, differs) for s_ in sets)
                 ctx.check(bool(sets) and looks, "R15.7", f, h, f"{name}: a source that failed midway poisons the session",
                           f"{name} rolls the registration back and re-raises also when the source failed after part of it had been compressed: those bytes stay in the packed "
                           "stream and in the folder's size, later writes and close() succeed and the archive is silently corrupt (members after the failure cannot be extracted). "
